@@ -29,6 +29,10 @@ pub fn run_c06(o: &Opts) -> Report {
         "C06",
         "pairs of enum terms: (t, rebuild(t)) along shuffled insertion orders with duplicates in fresh HashSets, \
          (t, perturb(t)), (t, t parsed twice from its ASCII text), independent pairs; nested to depth<=5; \
+         values built through the public variants: near-miss images whose own list holds a placeholder / whose index lies beyond the list \
+         (same expanded sequence, different index), the placeholder as an ordinary component of every constructor, both orders, bare and nested; \
+         atoms that differ in the constructor only (same name) at one position of every constructor; a != b against a == b; \
+         the same description rebuilt on another thread; \
          distinct = distinct canonical-form pairs; non-trivial = at least one side contains an unordered or symmetric node",
     );
     let mut rng = Rng::new(o.seed ^ 0xC06);
@@ -38,6 +42,8 @@ pub fn run_c06(o: &Opts) -> Report {
     let n = o.n;
     for i in 0..n {
         let a = if i < 46 { g.term_of(&mut rng, 0, 7 + i % 23) } else { g.term(&mut rng, 0) };
+        // every seventh: some atoms turned into the placeholder (an ordinary component wherever it stands)
+        let a = if i % 7 == 6 { sprinkle_placeholders(&a, &mut rng, 1, 4) } else { a };
         let (b, stream) = match i % 5 {
             0 | 1 => (rebuild(&a, &mut rng), "rebuild"),
             2 => (perturb(&a, &mut rng, &g), "perturb"),
@@ -131,6 +137,72 @@ pub fn run_c06(o: &Opts) -> Report {
             }
         }
     }
+    // values only the public variants / constructors build (no parser or formatter produces them):
+    // images whose own component list holds a placeholder or whose index lies beyond the list.  The index is part of the
+    // value ("pairwise equal components in order for ... images"), also when the placeholder-expanded sequences coincide.
+    // Bare, both orders, and nested in an ordered compound, a set, an asymmetric and a symmetric statement, a negation.
+    for (p, q) in image_near_misses(&mut rng, &g) {
+        push_c06(&mut rep, &mut cases, &p, &q, "image-near-miss", &mut rng);
+        push_c06(&mut rep, &mut cases, &q, &p, "image-near-miss", &mut rng);
+        let z = g.atom(&mut rng);
+        let bx = |t: &Term| Box::new(t.clone());
+        match rng.below(5) {
+            0 => push_c06(&mut rep, &mut cases, &Term::Product(vec![z.clone(), p.clone()]), &Term::Product(vec![z.clone(), q.clone()]), "image-near-miss-nested", &mut rng),
+            1 => push_c06(&mut rep, &mut cases, &Term::new_set_extension(vec![q.clone(), z.clone()]), &Term::new_set_extension(vec![z.clone(), p.clone()]), "image-near-miss-nested", &mut rng),
+            2 => push_c06(&mut rep, &mut cases, &Term::Inheritance(bx(&p), bx(&z)), &Term::Inheritance(bx(&q), bx(&z)), "image-near-miss-nested", &mut rng),
+            3 => push_c06(&mut rep, &mut cases, &Term::Similarity(bx(&p), bx(&z)), &Term::Similarity(bx(&z), bx(&q)), "image-near-miss-nested", &mut rng),
+            _ => push_c06(&mut rep, &mut cases, &Term::Negation(bx(&q)), &Term::Negation(bx(&p)), "image-near-miss-nested", &mut rng),
+        }
+    }
+    // atoms that differ in the constructor only and report the same name (A / $A / #A / ?A / ^A, +7 / the word 7, _ / a word
+    // named ""): bare, at one position of otherwise identical component lists of EVERY compound / statement constructor
+    // (the ordered ones compare through Vec ==, which std implements with `!=` per element), and one level deeper; both orders
+    for (x, y) in atom_kind_near_misses(&mut rng, &g) {
+        push_c06(&mut rep, &mut cases, &x, &y, "atom-kind-near-miss", &mut rng);
+        push_c06(&mut rep, &mut cases, &y, &x, "atom-kind-near-miss", &mut rng);
+        for kind in 7..30usize {
+            if let Some((a, b)) = same_context(kind, &mut rng, &g, &x, &y) {
+                push_c06(&mut rep, &mut cases, &a, &b, "atom-kind-near-miss-component", &mut rng);
+                if kind % 3 == 0 {
+                    let outer = *rng.pick(&[13usize, 14, 19, 7, 21, 22]);
+                    if let Some((a2, b2)) = same_context(outer, &mut rng, &g, &a, &b) {
+                        push_c06(&mut rep, &mut cases, &b2, &a2, "atom-kind-near-miss-nested", &mut rng);
+                    }
+                }
+            }
+        }
+    }
+    // the placeholder as an ordinary component of every compound / statement constructor, against the same constructor
+    // without it (variable arity) or with the operands exchanged (fixed arity), and against its own re-spelling
+    for (p, q) in placeholder_compounds(&mut rng, &g) {
+        push_c06(&mut rep, &mut cases, &p, &q, "placeholder-component", &mut rng);
+        push_c06(&mut rep, &mut cases, &q, &p, "placeholder-component", &mut rng);
+        push_c06(&mut rep, &mut cases, &p, &respell(&p), "placeholder-component-respelled", &mut rng);
+        let z = g.atom(&mut rng);
+        push_c06(&mut rep, &mut cases, &Term::new_conjunction(vec![p.clone(), z.clone()]), &Term::new_conjunction(vec![z.clone(), q.clone()]), "placeholder-component-nested", &mut rng);
+    }
+    // "however and in whatever order they were constructed": the same description built on ANOTHER THREAD (fresh HashSets
+    // filled there) compares like the one built here
+    {
+        let mine: Vec<Term> = (0..(o.n / 4).max(40)).map(|i| if i % 3 == 0 { wide_unordered(&mut rng, &g, i) } else { g.term(&mut rng, 0) }).collect();
+        let sent = mine.clone();
+        let mut trng = rng.fork(0x7C06);
+        let theirs = std::thread::spawn(move || sent.iter().map(|t| guard(|| (rebuild(t, &mut trng), respell(t)))).collect::<Vec<_>>()).join();
+        match theirs {
+            Ok(theirs) => {
+                for (a, r) in mine.iter().zip(theirs) {
+                    match r {
+                        Some((b, c)) => {
+                            push_c06(&mut rep, &mut cases, a, &b, "rebuilt-on-another-thread", &mut rng);
+                            push_c06(&mut rep, &mut cases, &c, a, "rebuilt-on-another-thread", &mut rng);
+                        }
+                        None => rep.fail(Failure { stream: "rebuilt-on-another-thread".into(), what: "building a term on another thread panicked".into(), input: show(a), expected: "a term".into(), got: "panic".into(), known: None }),
+                    }
+                }
+            }
+            Err(_) => rep.fail(Failure { stream: "rebuilt-on-another-thread".into(), what: "the building thread died".into(), input: "".into(), expected: "".into(), got: "panic".into(), known: None }),
+        }
+    }
     rep.shards = write_shards(&o.outdir, "C06", "Nv.Run.TermRun", "mismatches_c06", "c06case", "N_scope", &cases, o.shards, "").unwrap();
     rep
 }
@@ -155,6 +227,11 @@ fn push_c06(rep: &mut Report, cases: &mut Vec<String>, a: &Term, b: &Term, strea
     }
     if (b == a) != got {
         bad("== is not symmetric", format!("a==b {} b==a {}", got, b == a));
+    }
+    // `!=` is the same relation read negatively (std's Vec / slice equality is written with it): an overriding `ne` must agree
+    #[allow(clippy::nonminimal_bool)]
+    if (a != b) == got || (b != a) == got {
+        bad("a != b is not the negation of a == b", format!("a==b {} a!=b {} b!=a {}", got, a != b, b != a));
     }
     if !(a == a) || !(b == b) {
         bad("== is not reflexive", "false".into());
@@ -286,16 +363,81 @@ fn wide_unordered(rng: &mut Rng, g: &TermGen, salt: usize) -> Term {
     }
 }
 
+/// C07 on a pair: if the two compare equal (either order) they must hash alike under one RandomState and under a fresh
+/// DefaultHasher, and each must be found in a HashSet / HashMap holding the other
+fn equal_implies_same_hash(rep: &mut Report, p: &Term, q: &Term, stream: &str) {
+    rep.evaluations += 1;
+    rep.hist.add(format!("pairs:{}", stream));
+    if !(p == q || q == p) {
+        return;
+    }
+    rep.hist.add(format!("pairs-equal:{}", stream));
+    let rs = std::collections::hash_map::RandomState::new();
+    let mut bad = |what: &str, got: String| {
+        rep.fail(Failure { stream: stream.into(), what: what.into(), input: format!("{} vs {}", show(p), show(q)), expected: "unequal, or equal hashes".into(), got, known: None });
+    };
+    if rs.hash_one(p) != rs.hash_one(q) || default_hash(p) != default_hash(q) {
+        bad("terms that compare equal hash differently", format!("== but hashes {:x} vs {:x}", default_hash(p), default_hash(q)));
+    }
+    let mut hs = HashSet::new();
+    hs.insert(p.clone());
+    let mut hm = HashMap::new();
+    hm.insert(q.clone(), 1);
+    if !hs.contains(q) || hm.get(p).is_none() {
+        bad("a term inserted into a hash set / map is not found by an equal term", "== but not found".into());
+    }
+}
+
+/// the hash of a value under a given hasher is a function of the value, not of the thread that computes it
+fn other_threads(rep: &mut Report, inputs: &[Term], rng: &mut Rng) {
+    let sent: Vec<Term> = inputs.to_vec();
+    let hashes = std::thread::spawn(move || sent.iter().map(|t| guard(|| default_hash(t))).collect::<Vec<_>>()).join();
+    let sent: Vec<Term> = inputs.to_vec();
+    let filled = std::thread::spawn(move || {
+        let mut hs = HashSet::new();
+        let mut hm = HashMap::new();
+        for (i, t) in sent.into_iter().enumerate() {
+            hm.insert(t.clone(), i);
+            hs.insert(t);
+        }
+        (hs, hm)
+    })
+    .join();
+    let (hashes, (hs, hm)) = match (hashes, filled) {
+        (Ok(h), Ok(f)) => (h, f),
+        _ => {
+            rep.fail(Failure { stream: "other-thread".into(), what: "hashing / filling a hash set on another thread panicked".into(), input: "".into(), expected: "".into(), got: "panic".into(), known: None });
+            return;
+        }
+    };
+    for (t, h) in inputs.iter().zip(hashes) {
+        rep.evaluations += 1;
+        rep.hist.add("other-thread");
+        let here = default_hash(t);
+        if h != Some(here) {
+            rep.fail(Failure { stream: "other-thread".into(), what: "the same term hashed with a fresh DefaultHasher on another thread gives another hash".into(), input: show(t), expected: format!("{:x}", here), got: format!("{:x?}", h), known: None });
+        }
+        let b = rebuild(t, rng);
+        if !hs.contains(t) || hm.get(t).is_none() || (b == *t && (!hs.contains(&b) || hm.get(&b).is_none())) {
+            rep.fail(Failure { stream: "other-thread".into(), what: "a term inserted into a hash set / map on another thread is not found from this thread".into(), input: show(t), expected: "found".into(), got: "not found".into(), known: None });
+        }
+    }
+}
+
 pub fn run_c07(o: &Opts) -> Report {
     let mut rep = Report::new(
         "C07",
         "terms t with the recorded write stream of t.hash() (recording Hasher) and the DefaultHasher value of every sub-term \
          (oracle for the model's fixed_hash); plus on the real code: equal pairs (t, rebuild(t)) hashed under fresh RandomStates, \
-         HashSet::contains / HashMap::get with the equal key; distinct = distinct canonical forms; non-trivial = contains an unordered or symmetric node",
+         HashSet::contains / HashMap::get with the equal key; near-miss pairs (images with placeholder components / out-of-range indices, \
+         placeholder components) must be unequal or hash alike; the same term hashed on a spawned thread, hash sets / maps filled on another thread; \
+         distinct = distinct canonical forms; non-trivial = contains an unordered or symmetric node",
     );
     let mut rng = Rng::new(o.seed ^ 0xC07);
     let g = tgen(NameStyle::Mixed, if o.thorough { 6 } else { 5 }, 4, true);
     let mut cases = vec![];
+    // the terms whose write stream is compared with the model and which are hashed on the real code
+    let mut inputs: Vec<Term> = vec![];
     for i in 0..o.n {
         let a = if i < 60 {
             g.term_of(&mut rng, 0, i % 30)
@@ -304,6 +446,49 @@ pub fn run_c07(o: &Opts) -> Report {
         } else {
             g.term(&mut rng, 0)
         };
+        // every seventh: some atoms turned into the placeholder (an ordinary component wherever it stands)
+        inputs.push(if i % 7 == 6 { sprinkle_placeholders(&a, &mut rng, 1, 4) } else { a });
+    }
+    // values only the public variants / constructors build: images whose own component list holds a placeholder or whose
+    // index lies beyond the list (near-miss pairs: same expanded sequence, different index), the placeholder as an ordinary
+    // component of every constructor
+    let near = image_near_misses(&mut rng, &g);
+    let phc = placeholder_compounds(&mut rng, &g);
+    for (k, (p, q)) in near.iter().enumerate() {
+        if k % 3 == 0 {
+            inputs.push(p.clone());
+            inputs.push(Term::new_set_intension(vec![q.clone(), g.atom(&mut rng)]));
+        }
+    }
+    for (p, _) in &phc {
+        inputs.push(p.clone());
+    }
+    // whatever == says, terms that compare equal must hash equally and find each other in hash sets / maps: the near-miss
+    // pairs, both orders, bare and nested in a set, a symmetric statement and an ordered compound
+    for (p, q) in near.iter().chain(phc.iter()) {
+        let z = g.atom(&mut rng);
+        let bx = |t: &Term| Box::new(t.clone());
+        equal_implies_same_hash(&mut rep, p, q, "near-miss-pairs");
+        equal_implies_same_hash(&mut rep, q, p, "near-miss-pairs");
+        equal_implies_same_hash(&mut rep, &Term::new_set_extension(vec![p.clone(), z.clone()]), &Term::new_set_extension(vec![z.clone(), q.clone()]), "near-miss-pairs-nested");
+        equal_implies_same_hash(&mut rep, &Term::Similarity(bx(p), bx(&z)), &Term::Similarity(bx(&z), bx(q)), "near-miss-pairs-nested");
+        equal_implies_same_hash(&mut rep, &Term::Product(vec![z.clone(), q.clone()]), &Term::Product(vec![z.clone(), p.clone()]), "near-miss-pairs-nested");
+    }
+    // atoms that differ in the constructor only, at one position of otherwise identical ordered compounds / sets
+    for (x, y) in atom_kind_near_misses(&mut rng, &g) {
+        equal_implies_same_hash(&mut rep, &x, &y, "atom-kind-near-miss");
+        for kind in [13usize, 14, 15, 19, 7, 16, 22] {
+            if let Some((a, b)) = same_context(kind, &mut rng, &g, &x, &y) {
+                equal_implies_same_hash(&mut rep, &a, &b, "atom-kind-near-miss");
+                equal_implies_same_hash(&mut rep, &Term::new_set_extension(vec![b.clone()]), &Term::new_set_extension(vec![a.clone()]), "atom-kind-near-miss");
+            }
+        }
+    }
+    // "under the same hasher" does not depend on the thread: the same values hashed with a fresh DefaultHasher on a spawned
+    // thread, and a HashSet / HashMap filled on another thread and looked up here
+    other_threads(&mut rep, &inputs, &mut rng);
+    for (i, a) in inputs.iter().enumerate() {
+        let a = a.clone();
         rep.evaluations += 1;
         let ca = canon(&a);
         if has_unordered(&a) {
@@ -346,13 +531,7 @@ pub fn run_c07(o: &Opts) -> Report {
             ];
             pairs.push((Term::new_set_extension(vec![pairs[0].0.clone()]), Term::new_set_extension(vec![pairs[0].1.clone()])));
             for (p, q) in pairs {
-                rep.evaluations += 1;
-                if p == q || q == p {
-                    let rs = std::collections::hash_map::RandomState::new();
-                    if rs.hash_one(&p) != rs.hash_one(&q) {
-                        rep.fail(Failure { stream: "near-miss-pairs".into(), what: "terms that compare equal hash differently".into(), input: format!("{} vs {}", show(&p), show(&q)), expected: "unequal, or equal hashes".into(), got: "== but different hashes".into(), known: None });
-                    }
-                }
+                equal_implies_same_hash(&mut rep, &p, &q, "near-miss-pairs");
             }
         }
         // model case
@@ -404,10 +583,27 @@ fn cap_idx(c: TermCapacity) -> usize {
     }
 }
 
+/// the components as stored in the public variant (an atom: itself; an image: its own list, without the index placeholder),
+/// and whether they form a set
+fn stored_components(t: &Term) -> (Vec<Term>, bool) {
+    use Term::*;
+    match t {
+        Word(..) | Placeholder | VariableIndependent(..) | VariableDependent(..) | VariableQuery(..) | Interval(..) | Operator(..) => (vec![t.clone()], false),
+        SetExtension(s) | SetIntension(s) | IntersectionExtension(s) | IntersectionIntension(s) | Conjunction(s) | Disjunction(s) | ConjunctionParallel(s) => (s.iter().cloned().collect(), true),
+        Product(v) | ConjunctionSequential(v) | ImageExtension(_, v) | ImageIntension(_, v) => (v.clone(), false),
+        Negation(a) => (vec![(**a).clone()], false),
+        DifferenceExtension(a, b) | DifferenceIntension(a, b) | Inheritance(a, b) | Similarity(a, b) | Implication(a, b) | Equivalence(a, b)
+        | ImplicationPredictive(a, b) | ImplicationConcurrent(a, b) | ImplicationRetrospective(a, b) | EquivalencePredictive(a, b)
+        | EquivalenceConcurrent(a, b) => (vec![(**a).clone(), (**b).clone()], false),
+    }
+}
+
 pub fn run_c14(o: &Opts) -> Report {
     let mut rep = Report::new(
         "C14",
         "every constructor x every image index 0..n for n in 0..4 (exhaustive), nested random terms (depth<=4), incl. images whose index exceeds the length; \
+         the placeholder as an ordinary component of every compound / statement constructor (and sprinkled over random terms), images whose own list holds it; \
+         on the real code also: get_components == the stored payload of the variant, == components_including_placeholder off images; \
          on the real code: extract == components_including_placeholder, placeholder at index, category partition, capacity vs count; lexical terms: extraction and category vs fold; \
          distinct = distinct canonical forms; non-trivial = compound or statement",
     );
@@ -428,12 +624,31 @@ pub fn run_c14(o: &Opts) -> Report {
             terms.push(Term::ImageIntension(idx, v));
         }
     }
-    for _ in 0..o.n {
-        terms.push(g.term(&mut rng, 0));
+    for i in 0..o.n {
+        let t = g.term(&mut rng, 0);
+        // every fifth: some atoms turned into the placeholder (an ordinary component wherever it stands)
+        terms.push(if i % 5 == 4 { sprinkle_placeholders(&t, &mut rng, 1, 3) } else { t });
+    }
+    // the placeholder as an ORDINARY component (it is an atom; the parsers accept `(*, _, A)`, `(&/, A, _)`, `{_}`, `<_ --> A>`):
+    // every compound / statement constructor over lists that hold it (only, first, middle, last, twice), images with every
+    // index; and images whose own list holds a placeholder or whose index lies beyond the list.  Bare and as a component.
+    for (p, q) in placeholder_compounds(&mut rng, &g) {
+        terms.push(Term::Product(vec![g.atom(&mut rng), p.clone()]));
+        terms.push(p);
+        terms.push(q);
+    }
+    for (k, (p, q)) in image_near_misses(&mut rng, &g).into_iter().enumerate() {
+        if k % 2 == 0 {
+            terms.push(p);
+            terms.push(q);
+        }
     }
     for t in &terms {
         rep.evaluations += 1;
         rep.hist.add(format!("top:{}", ctor_name(t)));
+        if t.get_atom_name().is_none() && stored_components(t).0.iter().any(|c| matches!(c, Term::Placeholder)) {
+            rep.hist.add(format!("placeholder-component:{}", ctor_name(t)));
+        }
         let descr = format!("access({})", show(t));
         if t.get_atom_name().is_none() {
             rep.note_distinct(&canon(t));
@@ -455,6 +670,22 @@ pub fn run_c14(o: &Opts) -> Report {
         let mut bad = |what: &str, got: String| {
             rep.fail(Failure { stream: "access".into(), what: what.into(), input: show(t), expected: "".into(), got, known: None });
         };
+        // the stored payload, read off the public variant: the borrowing accessor reports exactly these (an image's own list
+        // for the placeholder-free accessor), in order for ordered terms and as a set for unordered ones -- whatever they are
+        let (stored, unordered) = stored_components(t);
+        let key = |v: &[Term]| -> Vec<String> {
+            let mut x: Vec<String> = v.iter().map(canon).collect();
+            if unordered {
+                x.sort();
+            }
+            x
+        };
+        if key(&comps) != key(&stored) {
+            bad("get_components does not report the stored components", format!("{:?} vs stored {:?}", comps, stored));
+        }
+        if img.is_none() && key(&incl) != key(&comps) {
+            bad("get_components_including_placeholder differs from get_components on a term that is not an image", format!("{:?} vs {:?}", incl, comps));
+        }
         if wf_img {
             match &ex {
                 None => bad("extract_terms panicked on a well-formed term", "panic".into()),
@@ -616,6 +847,8 @@ pub fn run_c17(o: &Opts) -> Report {
         "C17",
         "every constructor x adversarial names (\"\", +, +5, -5, 0005, 2^64-1, 2^64, fullwidth digits, spaces ...) for set_atom_name; \
          every constructor x component lists (0..4 items, incl. duplicates of existing components) for push_components; \
+         every variable-arity constructor x batches holding an element equal to an existing one but spelled differently (operands of <->, <=>, <|> exchanged, \
+         sets re-inserted in another order; bare and nested): the union holds no two == components and lacks none; \
          on the real code: outcome and post-state vs an independent reference, on Err unchanged; distinct = distinct (term, op) canonical pairs; non-trivial = all",
     );
     let mut rng = Rng::new(o.seed ^ 0xC17);
@@ -646,8 +879,48 @@ pub fn run_c17(o: &Opts) -> Report {
             let name = if rng.chance(1, 2) { rng.pick(NAME_POOL).to_string() } else { gen_name(&mut rng, NameStyle::Mixed) };
             work.push((t, Some(name), None));
         } else {
-            let news: Vec<Term> = (0..rng.below(4)).map(|_| g.term(&mut rng, 3)).collect();
+            let mut news: Vec<Term> = (0..rng.below(4)).map(|_| g.term(&mut rng, 3)).collect();
+            // an existing component again, spelled differently (see below), and the placeholder as an ordinary new component
+            if rng.chance(1, 3) {
+                if let Some(c) = t.get_components().first() {
+                    news.push(respell(c));
+                }
+            }
+            if rng.chance(1, 6) {
+                news.insert(0, Term::Placeholder);
+            }
             work.push((t, None, Some(news)));
+        }
+    }
+    // "uniting into unordered ones": the batch holds an element EQUAL (by ==) to an existing one but not spelled identically --
+    // a symmetric statement (<->, <=>, <|>) with exchanged operands, a set inserted in another order into a fresh HashSet,
+    // bare or nested inside an ordered compound / a negation / an asymmetric statement.  The union must hold one of them.
+    // Every variable-arity constructor (the ordered ones append both), existing compound empty / one / several components,
+    // the re-spelled element alone, next to an identical copy, twice, or only inside the batch.
+    for kind in [7usize, 8, 9, 10, 16, 17, 20, 13, 19, 14, 15] {
+        for xk in [22usize, 24, 29, 7, 16, 20] {
+            for shape in 0..6 {
+                let bx = |t: &Term| Box::new(t.clone());
+                let core = g.term_of(&mut rng, 2, xk);
+                let z = g.atom(&mut rng);
+                let x = match shape {
+                    0 | 1 | 5 => core,
+                    2 => Term::Product(vec![core, z.clone()]),
+                    3 => Term::Negation(bx(&core)),
+                    _ => Term::Inheritance(bx(&z), bx(&core)),
+                };
+                let y = respell(&x);
+                let other = g.term(&mut rng, 3);
+                let (old, news): (Vec<Term>, Vec<Term>) = match shape {
+                    0 => (vec![x.clone()], vec![y]),
+                    1 => (vec![other.clone(), x.clone()], vec![g.term(&mut rng, 3), y, x.clone()]),
+                    5 => (vec![], vec![x.clone(), y, other.clone()]),
+                    _ => (vec![x.clone(), other.clone()], vec![y.clone(), respell(&y), other.clone()]),
+                };
+                if let Some(t) = compound_of(kind, 0, &old) {
+                    work.push((t, None, Some(news)));
+                }
+            }
         }
     }
     for (t, name, news) in work {
@@ -741,6 +1014,13 @@ pub fn run_c17(o: &Opts) -> Report {
                     got.dedup();
                     if !ok || want != got || n_got != got.len() || ctor_name(&after) != ctor_name(&t) {
                         bad("appending to an unordered compound must unite the components", show(&after));
+                    }
+                    // a union holds no two equal components (== of the library itself), and every old / new one is found in it
+                    let cs = after.get_components();
+                    let twice = cs.iter().enumerate().any(|(i, a)| cs.iter().skip(i + 1).any(|b| a == b));
+                    let lost = old.iter().chain(v.iter()).any(|e| !cs.iter().any(|c| *c == e));
+                    if twice || lost {
+                        bad("the union after appending holds two equal components, or lacks an old / appended one", show(&after));
                     }
                 }
                 _ => {
